@@ -417,6 +417,26 @@ impl TransformerContext {
         self.scope_stack.push(scope);
     }
 
+    /// The attributes of a `<g>` / `<reuse>` are variables for its content: a value produced
+    /// by substitution is bounded by `var-limit`, as it is for `<var>` (a template re-using
+    /// itself with `s="$s$s"` would otherwise double it at every level).
+    pub fn check_scope_vars(&self, original: &SvgElement, evaluated: &SvgElement) -> Result<()> {
+        for (key, value) in evaluated.attrs.clone() {
+            let unchanged = match original.get_attr(&key) {
+                Some(orig) => orig == value,
+                None => false,
+            };
+            if value.len() > self.config.var_limit as usize && !unchanged {
+                return Err(SvgdxError::VarLimitError(
+                    key,
+                    value.len(),
+                    self.config.var_limit,
+                ));
+            }
+        }
+        Ok(())
+    }
+
     pub fn pop_element(&mut self) -> Option<SvgElement> {
         self.scope_stack.pop();
         self.element_stack.pop()
